@@ -43,6 +43,8 @@ structure SweepCand (upd : Mom α → Item α → Mom α) (m0 : Mom α) (all : L
   right_ne : rightOf c.1 all ≠ []
   /-- the running accumulator is the fold over a prefix of the sorted list -/
   pfx : ∃ l1 l2, all = l1 ++ l2 ∧ l1 ≠ [] ∧ l2 ≠ [] ∧ c.2 = l1.foldl upd m0
+  /-- no value equals the threshold -/
+  ne_thr : ∀ x ∈ all, x.v ≠ c.1
 
 /-- soundness of the sweep (stump.cpp:137-159, hinge.cpp:201-245), for any accumulator update -/
 theorem sweep_sound (upd : Mom α → Item α → Mom α) (m0 : Mom α) (pre : List (Item α)) :
@@ -78,7 +80,7 @@ theorem sweep_sound (upd : Mom α → Item α → Mom α) (m0 : Mom α) (pre : L
           · have hle : p.v ≤ p1.v := (List.pairwise_append.mp hsorted).2.2 p hp p1 (by simp)
             exact lt_of_le_of_lt hle hmid1
           · simp at hp; subst hp; exact hmid1
-        have hr : ∀ p ∈ p2 :: rest, ¬ p.v < half * (p1.v + p2.v) := by
+        have hr' : ∀ p ∈ p2 :: rest, half * (p1.v + p2.v) < p.v := by
           intro p hp
           have hge : p2.v ≤ p.v := by
             rcases List.mem_cons.mp hp with rfl | hp
@@ -86,15 +88,23 @@ theorem sweep_sound (upd : Mom α → Item α → Mom α) (m0 : Mom α) (pre : L
             · have h1 := (List.pairwise_append.mp hsorted).2.1
               have h2 := (List.pairwise_cons.mp h1).2
               exact (List.pairwise_cons.mp h2).1 p hp
-          exact not_lt.mpr (le_trans (le_of_lt hmid2) hge)
+          exact lt_of_lt_of_le hmid2 hge
+        have hr : ∀ p ∈ p2 :: rest, ¬ p.v < half * (p1.v + p2.v) :=
+          fun p hp => not_lt.mpr (le_of_lt (hr' p hp))
         obtain ⟨hL, hR⟩ := leftOf_split (pre ++ [p1]) (p2 :: rest) _ hl hr
-        refine ⟨?_, ⟨p1, p2, by simp, by simp, hlt, rfl⟩, ?_, ?_, ⟨pre ++ [p1], p2 :: rest, hsplit, by simp, by simp, hneg⟩⟩
+        refine ⟨?_, ⟨p1, p2, by simp, by simp, hlt, rfl⟩, ?_, ?_, ⟨pre ++ [p1], p2 :: rest, hsplit, by simp, by simp, hneg⟩, ?_⟩
         · show upd (pre.foldl upd m0) p1 = _
           rw [hsplit, hL, hneg]
         · show leftOf _ _ ≠ []
           rw [hsplit, hL]; simp
         · show rightOf _ _ ≠ []
           rw [hsplit, hR]; simp
+        · intro x hx
+          show x.v ≠ half * (p1.v + p2.v)
+          rw [hsplit] at hx
+          rcases List.mem_append.mp hx with hx | hx
+          · exact ne_of_lt (hl x hx)
+          · exact ne_of_gt (hr' x hx)
       simp only [sweep] at hc
       rw [hneg] at hc
       split at hc
@@ -112,11 +122,14 @@ theorem running_moments_eq_prefix' (upd : Mom α → Item α → Mom α) (m0 : M
   have := sweep_sound upd m0 [] sorted (by simpa using hs) c (by simpa using hc)
   simpa using this.pfx
 
-/-- completeness: a threshold with items on both sides splits the sorted list like one of the candidates -/
+/-- completeness: a threshold with items on both sides splits the sorted list like one of the candidates; that candidate
+    is the mid-point of the largest value left of the threshold and the smallest value not left of it -/
 theorem sweep_complete (upd : Mom α → Item α → Mom α) (t : α) :
     ∀ (l : List (Item α)) (neg : Mom α), l.Pairwise (fun a b => a.v ≤ b.v) →
     (∃ x ∈ l, x.v < t) → (∃ y ∈ l, ¬ y.v < t) →
-    ∃ c ∈ sweep upd neg l, ∀ x ∈ l, (x.v < c.1 ↔ x.v < t) := by
+    ∃ c ∈ sweep upd neg l, (∀ x ∈ l, (x.v < c.1 ↔ x.v < t)) ∧
+      ∃ x y, x ∈ l ∧ y ∈ l ∧ c.1 = half * (x.v + y.v) ∧ x.v < t ∧ ¬ y.v < t ∧
+        (∀ z ∈ l, z.v < t → z.v ≤ x.v) ∧ (∀ z ∈ l, ¬ z.v < t → y.v ≤ z.v) := by
   intro l
   induction l with
   | nil => intro _ _ h; obtain ⟨x, hx, _⟩ := h; simp at hx
@@ -143,34 +156,52 @@ theorem sweep_complete (upd : Mom α → Item α → Mom α) (t : α) :
           rcases List.mem_cons.mp hy with rfl | hy
           · exact absurd hat hyt
           · exact ⟨y, hy, hyt⟩
-        obtain ⟨c, hc, hcs⟩ := ih (upd neg a) hs' ⟨b, by simp, hbt⟩ hy'
-        refine ⟨c, ?_, ?_⟩
+        obtain ⟨c, hc, hcs, x, y, hxm, hym, hcm, hxt, hyt, hxmax, hymin⟩ :=
+          ih (upd neg a) hs' ⟨b, by simp, hbt⟩ hy'
+        refine ⟨c, ?_, ?_, x, y, List.mem_cons_of_mem _ hxm, List.mem_cons_of_mem _ hym, hcm, hxt, hyt, ?_, ?_⟩
         · simp only [sweep]
           split
           · exact List.mem_cons_of_mem _ hc
           · exact hc
-        · intro x hx
-          rcases List.mem_cons.mp hx with rfl | hx
+        · intro z hz
+          rcases List.mem_cons.mp hz with rfl | hz
           · have hb : b.v < c.1 := (hcs b (by simp)).mpr hbt
             constructor
             · intro _; exact hat
             · intro _; exact lt_of_le_of_lt (hab b (by simp)) hb
-          · exact hcs x hx
+          · exact hcs z hz
+        · intro z hz hzt
+          rcases List.mem_cons.mp hz with rfl | hz
+          · exact le_trans (hab b (by simp)) (hxmax b (by simp) hbt)
+          · exact hxmax z hz hzt
+        · intro z hz hzt
+          rcases List.mem_cons.mp hz with rfl | hz
+          · exact absurd hat hzt
+          · exact hymin z hz hzt
       · -- the candidate between a and b
         have hlt : a.v < b.v := lt_of_lt_of_le hat (not_lt.mp hbt)
-        refine ⟨(half * (a.v + b.v), upd neg a), ?_, ?_⟩
+        have hge : ∀ z ∈ b :: rest, b.v ≤ z.v := by
+          intro z hz
+          rcases List.mem_cons.mp hz with rfl | hz
+          · exact le_refl _
+          · exact hbz z hz
+        refine ⟨(half * (a.v + b.v), upd neg a), ?_, ?_, a, b, by simp, by simp, rfl, hat, hbt, ?_, ?_⟩
         · simp only [sweep, hlt, if_true]; exact List.mem_cons_self
-        · intro x hx
-          rcases List.mem_cons.mp hx with rfl | hx
+        · intro z hz
+          rcases List.mem_cons.mp hz with rfl | hz
           · constructor
             · intro _; exact hat
             · intro _; exact lt_mid hlt
-          · have hge : b.v ≤ x.v := by
-              rcases List.mem_cons.mp hx with rfl | hx
-              · exact le_refl _
-              · exact hbz x hx
-            constructor
-            · intro h; exact absurd (lt_of_le_of_lt hge h) (not_lt.mpr (le_of_lt (mid_lt hlt)))
-            · intro h; exact absurd (lt_of_le_of_lt hge h) hbt
+          · constructor
+            · intro h; exact absurd (lt_of_le_of_lt (hge z hz) h) (not_lt.mpr (le_of_lt (mid_lt hlt)))
+            · intro h; exact absurd (lt_of_le_of_lt (hge z hz) h) hbt
+        · intro z hz hzt
+          rcases List.mem_cons.mp hz with rfl | hz
+          · exact le_refl _
+          · exact absurd (lt_of_le_of_lt (hge z hz) hzt) hbt
+        · intro z hz hzt
+          rcases List.mem_cons.mp hz with rfl | hz
+          · exact absurd hat hzt
+          · exact hge z hz
 
 end NanoVerif.WLearner
